@@ -5,7 +5,6 @@ use itertools::Itertools;
 use std::collections::HashMap;
 use std::fmt::Debug;
 use std::marker::PhantomData;
-use std::mem::take;
 use ultraviolet::f32x8;
 
 pub mod builder;
@@ -531,6 +530,18 @@ where
         let last_observations = self.observations.clone();
         let last_metric = self.metric.clone();
 
+        // the history the track gets when the merge succeeds: computed once, installed at the end
+        let new_merge_history = if merge_history {
+            self.merge_history
+                .iter()
+                .chain(other.merge_history.iter())
+                .cloned()
+                .collect::<Vec<_>>()
+        } else {
+            self.merge_history.clone()
+        };
+        let mut any_class_merged = false;
+
         for cls in classes {
             let dest = self.observations.get_mut(cls);
             let src = other.observations.get(cls);
@@ -552,20 +563,10 @@ where
 
                 _ => None,
             };
-            let merge_history = if merge_history {
-                self.merge_history
-                    .iter()
-                    .chain(other.merge_history.iter())
-                    .cloned()
-                    .collect::<Vec<_>>()
-            } else {
-                take(&mut self.merge_history)
-            };
-
             if let Some(prev_length) = prev_length {
                 let res = self.metric.optimize(
                     *cls,
-                    &merge_history,
+                    &new_merge_history,
                     &mut self.attributes,
                     self.observations.get_mut(cls).unwrap(),
                     prev_length,
@@ -579,8 +580,12 @@ where
                     res?;
                     unreachable!();
                 }
-                self.merge_history = merge_history;
+                any_class_merged = true;
             }
+        }
+
+        if any_class_merged {
+            self.merge_history = new_merge_history;
         }
 
         self.notifier.send(self.track_id);
